@@ -480,6 +480,19 @@ EvCMisuse ==
   /\ l' = l + 1
   /\ Keep(<<acc, cs, ip, cid, dc, ds, ss, cc, seen>>)
 
+\* a call the stream has to refuse, made in the middle of a stream: error code, and the
+\* pointers / counters of the stream do not move (the calls after it are twin-checked as usual)
+EvCMisuseMid ==
+  /\ Is("c_misuse_mid")
+  /\ LET b == E.before
+         a == E.after
+     IN Report(CIff("c_misuse_returns_error_code", E.ret < 0)
+               \o CIff("c_refused_call_moves_no_pointer_or_counter",
+                       /\ a.avail_in = b.avail_in /\ a.avail_out = b.avail_out /\ a.in_off = b.in_off /\ a.out_off = b.out_off
+                       /\ a.total_in = b.total_in /\ a.total_out = b.total_out), 2)
+  /\ l' = l + 1
+  /\ Keep(<<acc, cs, ip, cid, dc, ds, ss, cc, seen>>)
+
 EvCCompress ==
   /\ Is("c_compress")
   /\ LET e == E
@@ -661,7 +674,7 @@ EvHuffBlock ==
 Known == {"case", "input", "stream", "compressed", "roundtrip", "panic", "hang", "crash",
           "comp_new", "comp", "flushpoint", "defl", "defl_end",
           "dnew", "dec", "dec_end", "equiv", "state_same", "vec", "sliceiter", "inf_new", "inf", "inf_end", "equiv_s", "cksum",
-          "c_init", "c_call", "c_reset", "c_end", "c_misuse", "c_compress", "c_compressed_valid",
+          "c_init", "c_call", "c_reset", "c_end", "c_misuse", "c_misuse_mid", "c_compress", "c_compressed_valid",
           "c_uncompress", "c_mem_to_mem", "c_mem_to_heap", "c_bound", "c_tinfl", "c_tdefl", "pair", "bb", "bb_end", "note", "gen_expect", "zhdr",
           "huff", "huff_block"}
 
@@ -677,7 +690,7 @@ Next == \/ EvCase \/ EvInput \/ EvStream \/ AccRun \/ EvStreamDone
         \/ EvCompNew \/ EvComp \/ EvFlushpoint \/ EvDefl \/ EvDeflEnd
         \/ EvDNew \/ EvDec \/ EvDecEnd \/ EvStateSame \/ EvEquiv \/ EvVec \/ EvSliceIter
         \/ EvInfNew \/ EvInf \/ EvInfEnd \/ EvEquivS \/ EvCksum
-        \/ EvCInit \/ EvCCall \/ EvCReset \/ EvCEnd \/ EvCMisuse \/ EvCCompress \/ EvCCompressedValid
+        \/ EvCInit \/ EvCCall \/ EvCReset \/ EvCEnd \/ EvCMisuse \/ EvCMisuseMid \/ EvCCompress \/ EvCCompressedValid
         \/ EvCUncompress \/ EvCMemToMem \/ EvCMemToHeap \/ EvCBound \/ EvCTinfl \/ EvCTdefl
         \/ EvPair \/ EvBB \/ EvBBEnd \/ EvNote \/ EvGenExpect \/ EvZHdr \/ EvHuff \/ EvHuffBlock
         \/ EvUnknown
